@@ -102,13 +102,14 @@ theorem C14_cgscan_invariant (A : V →ₗ[𝕜] V) (b x0 : V) (k : Nat) :
   have := scanIter_inv A b k (scanInit (rcOps 𝕜 V) A b x0) ⟨rfl, rfl⟩
   exact ⟨this.res, this.num⟩
 
-/-- … but it has no stopping test: started at an exact solution (e.g. `b = 0`, `x0 = 0`) its first step
-    computes `alpha = 0 / ⟪0, A 0⟫ = 0 / 0` and `beta = num' / 0` — NaN in IEEE arithmetic (recorded finding
-    `cgscan-breakdown`); the invariant above is silent about that because a field has no NaN. -/
-theorem C14_cgscan_breakdown_witness (A : V →ₗ[𝕜] V) (b x0 : V) (h : A x0 = b) :
-    let s := scanInit (rcOps 𝕜 V) A b x0
-    s.num = 0 ∧ inner 𝕜 s.p (A s.p) = 0 := by
-  simp [scanInit, rcOps, h]
+/-- `cg_solver` has no stopping test, but its two quotients are guarded (`jnp.where(den == 0, 0, num/den)`):
+    started at an exact solution (`A x0 = b`, e.g. `b = 0`, `x0 = 0`) it returns `x0` for every `maxiter` — in
+    particular no `0/0` is ever evaluated.  (Before repo commit 3eb0efe the unguarded quotients gave NaN there.) -/
+theorem C14_cgscan_stays_at_solution (A : V →ₗ[𝕜] V) (b x0 : V) (h : A x0 = b) (maxiter : Nat) :
+    cgScan (rcOps 𝕜 V) A b x0 maxiter = x0 := by
+  unfold cgScan
+  rw [scanIter_fixed A _ (by simp [scanInit, h]) (by simp [scanInit, h]) (by simp [scanInit, rcOps, h])]
+  rfl
 
 /-- **`lstsq`**: the system it hands to `cg` is `Aᴴ A x = Aᴴ b`, and `x` solves it iff `x` minimises
     `‖A x − b‖` — for real and complex `A` alike, `AH` being the adjoint (`Aop.H`). -/
